@@ -1,0 +1,18 @@
+//go:build verif
+
+package set
+
+// VerifMembers exposes the raw members slice (slot order, with its spare capacity) of the
+// unordered, stable and sorted set, so that a harness can check backing-array sharing between
+// sets. It exists only under the verif build tag; the slice must not be written to.
+func VerifMembers[T any](s Set[T]) ([]T, bool) {
+	switch x := s.(type) {
+	case *set[T]:
+		return x.members, true
+	case *stable[T]:
+		return x.members, true
+	case *sorted[T]:
+		return x.members, true
+	}
+	return nil, false
+}
